@@ -195,16 +195,11 @@ func (bg *BondgoCheck) Create_Bondmachine(rsize int, filter string) (*bondmachin
 	for _, _ = range creqs {
 		bmach.Add_shared_objects([]string{"channel:"})
 	}
-	// Connect in channel order: the position of a link is the channel's
-	// number on the processor, map order would renumber them on every run
-	chanids := make([]int, 0, len(creqs))
-	for chanid := range creqs {
-		chanids = append(chanids, chanid)
-	}
-	sort.Ints(chanids)
-	for _, chanid := range chanids {
-		creq := creqs[chanid]
-		for _, proc_id := range creq.Connected {
+	// The position of a link is the channel's number on that processor (the
+	// N of chN in its code): connect every processor to its channels in the
+	// order it numbered them
+	for proc_id := 0; proc_id < len(bg.Program); proc_id++ {
+		for _, chanid := range bg.Chano[proc_id] {
 			endpoints := make([]string, 2)
 			endpoints[0] = strconv.Itoa(proc_id)
 			endpoints[1] = strconv.Itoa(chanid)
